@@ -68,7 +68,7 @@ REQUIRED = dict(
               'get_solution-yields-map-and-median',
               'mean-is-weighted-mean', 'spectrum-at-map:native', 'spectrum-at-map:binned', 'profiles-at-median',
               'derived-trace-per-sample-in-order', 'derived-summaries'],
-    classes=['reuse:set_observed', 'reuse:fit-2', 'sampler:nestle', 'sampler:multinest', 'sampler:polychord', 'judged:nestle', 'judged:multinest',
+    classes=['width-kind:3', 'reuse:set_observed', 'reuse:fit-2', 'sampler:nestle', 'sampler:multinest', 'sampler:polychord', 'judged:nestle', 'judged:multinest',
              'judged:polychord', 'judged:polychord:cluster-1', 'judged:polychord:cluster-2-equal',
              'judged:multinest:multimodal-off', 'judged:multinest:multimodal-1-mode',
              'judged:multinest:multimodal-2-modes-equal', 'multinest:multimodal-off',
@@ -251,6 +251,7 @@ def wl_posterior(ctx, rng, rounds=1):
         if layout is None:
             ctx.event('domain-skip:no-layout-with-width-condition')
             return
+        ctx.observe('width-kind:%d' % layout['width_kind'])
         truth = L.shadow_eval(spec, [])
         if 'rejected' in truth or not np.all(np.isfinite(truth['depth'])):
             ctx.event('domain-skip:truth-not-a-valid-atmosphere')
